@@ -1,6 +1,9 @@
 """Per-property configuration of bin/check."""
 
 PROPS = {
+    "C03": {"quick": 2400, "thorough": 100000, "model": ["SpecList"], "pending": "in progress"},
+    "C05": {"quick": 3000, "thorough": 150000, "model": ["SpecList"], "pending": "in progress"},
+    "C12": {"quick": 1600, "thorough": 60000, "model": ["SpecList"], "pending": "in progress"},
     "C06": {
         "quick": 3000, "thorough": 120000, "model": ["SpecKeys"],
         "rule": "one file (bash/ruby/js) with 1-3 sibling keep-sorted blocks; the first block's lines enumerate every sequence of length 0..3 over a 7-9 symbol alphabet (ordered, equal, prefix-related, indented, trailing-blank, blank, numeric-looking incl. 0/-0/1e3) and sample lengths 4-5 and longer; direction in {asc,desc,'',ASC,Desc,' ',dEsC} x {no pattern, group pattern, plain pattern} x {lexicographic, numeric}; Unicode keys; content on the tag's line. Non-trivial = a block with at least two non-blank lines; distinct = distinct file text.",
